@@ -108,6 +108,16 @@ pub fn get_artifact_path_and_content<TCompilationProfile: CompilationProfile>(
     let mut artifact_path_and_content = get_artifact_path_and_content_impl(db);
     if let Some(header) = config.options.generated_file_header {
         for artifact_path_and_content in artifact_path_and_content.iter_mut() {
+            // The header is a `//` comment, which is not valid in a JSON file
+            // (e.g. persisted_documents.json).
+            if artifact_path_and_content
+                .artifact_path
+                .file_name
+                .to_string()
+                .ends_with(".json")
+            {
+                continue;
+            }
             artifact_path_and_content.file_content =
                 format!("// {header}\n{}", artifact_path_and_content.file_content).into();
         }
